@@ -1,5 +1,6 @@
 //! unit: u10
-//! properties: C10
+//! properties: C10 C05 C11
+//! note: also run for C05, C11: the code it constrains lies inside mechanisms those properties name (a change made there for their sake must meet these clauses too)
 //! note: narrow claim for C10 (restart from a stale manager): blocked monitor updates that the loaded monitor already contains are dropped and newer ones kept; the close update generated for a channel whose manager is older than its monitor takes the update id right after the monitor's latest; an HTLC the stale manager still holds is looked up in the monitor by its source. Further kernel statements of C10's mechanisms are under contract in other units and tagged C10 there: the manager-older-than-monitor test (u05c), re-registering RAA blockers on reload (u02b), what FundedChannel::write leaves out (u12b), forgetting the peer's uncommitted updates (u01j)
 //! trusted: R15 (deep slices): FundedChannel::on_startup_drop_completed_blocked_mon_updates_through (the retain closure body, log statement removed R3), ChannelManager::from_channel_manager_data (the expression of the close update's id; the test that matches a manager HTLC against the monitor's outbound HTLCs), reconcile_pending_htlcs_with_monitor (the body of the closure that decides which held forwards / intercepted HTLCs are purged), verbatim as functions; PendingUpdate / HTLCSource are skeletons; HTLCSource equality is structural
 //! trusted: R15/R18 (deep slices of the function-local macro handle_in_flight_updates!): the predicate of the `.filter` that counts completed in-flight updates (the statement that tracks the maximum id is dropped) and the `replay` predicate of the `.retain`; the pushes of the background events and the bookkeeping around them are dropped and not claimed
